@@ -565,6 +565,10 @@ def _chunk_carry_over(ctx):
     from .c01 import r2_carry_over
     r2_carry_over(ctx)         # BAM is read through the same chunk reader in prepend (gzip) mode
 
+def _uniformity_shortcuts(ctx):
+    from ..idioms import check_uniformity_shortcuts
+    check_uniformity_shortcuts(ctx, [BAM, "bionumpy.alignments.cigar"], "C16-R11")
+
 RULES = [
     ("C16-R1", r1_layout),
     ("C16-R2", r2_code_tables),
@@ -577,4 +581,5 @@ RULES = [
     ("C16-R9", _header_once),
     ("C16-T1", _through_time),
     ("C16-R10", _chunk_carry_over),
+    ("C16-R11", _uniformity_shortcuts),
 ]
